@@ -389,6 +389,10 @@ def alloc_items(tier):
                 sp["teams"][0]["workers"][{"solo-middle": 1, "solo-first": 0, "solo-last": 2}[var]]["solo"] = True
             for rule in ("SPT", "LPT", "TSLACK", "FIFO"):
                 out.append((sp, {"rule": rule, "max_time": F.seq_bound(sp) + 8}))
+    # a task targeted by two teams, one of them wired through the constructor keyword only
+    for sp in F.mixed_wiring_specs():
+        for rule in ("SPT", "LPT", "TSLACK"):
+            out.append((sp, {"rule": rule, "max_time": F.seq_bound(sp) + 8}))
     return out
 
 
